@@ -396,6 +396,19 @@ def mk_reply(rng, tb, clean=True, big=False, depth=0):
         return ["a", None]
     if r < 0.45:
         return ["e", {"kind": "plain", "text": b""}]
+    if depth == 0 and r < 0.60:
+        # an array the dissector accepts (it starts with a command name) with nested arrays at every position, among
+        # them nested arrays that END in an empty or a null array (nothing follows the last element of an inner array)
+        def inner(d):
+            es = [rng.choice([mk_int(rng), ["b", mk_bytes(rng)], ["b", None]]) for _ in range(rng.randint(0, 2))]
+            if d < 2 and rng.random() < 0.5:
+                es.insert(rng.randint(0, len(es)), inner(d + 1))
+            if rng.random() < 0.6:
+                es.append(rng.choice([["a", []], ["a", None]]))
+            return ["a", es]
+        elems = [["b", rng.choice(tb["commands"])]] + [rng.choice([mk_int(rng), ["b", mk_bytes(rng)]]) for _ in range(rng.randint(0, 2))]
+        elems.insert(rng.randint(1, len(elems)), inner(1))
+        return ["a", elems]
     n = rng.randint(1, 5)
     elems = []
     for i in range(n):
